@@ -93,6 +93,11 @@ func (k *concr) ident(id uint64) []byte {
 		return nil
 	case 1:
 		return k.c.env.identifier
+	case 2: // the other duty role of the same validator (crossrole.go)
+		if k.c.role == 2 {
+			return getEnv(k.c.env.n).identifier
+		}
+		return getEnvRole2(k.c.env.n).identifier
 	}
 	b := append([]byte{}, k.c.env.identifier...)
 	b[len(b)-1] ^= byte(id)
@@ -255,12 +260,24 @@ func replay(lines []string) []caseOut {
 		if ws[0] == "reset" {
 			flush()
 			env := getEnv(int(atou(kvOf(ws, "n"))))
+			role2 := kvOf(ws, "role") == "2"
+			if role2 {
+				env = getEnvRole2(env.n)
+			}
 			ctrl := kvOf(ws, "mode") == "ctrl"
 			c = newCase(env, spectypes.OperatorID(atou(kvOf(ws, "op"))), specqbft.Height(atou(kvOf(ws, "h"))), nil, ctrl, !ctrl, ctrl)
+			if role2 {
+				c.role = 2
+				c.in.Ident(getEnv(env.n).identifier)
+			} else {
+				c.in.Ident(getEnvRole2(env.n).identifier)
+			}
 			c.c02 = *mode == "c02"
 			k = &concr{c}
 			cur = &replayNode{c: c}
-			nodes = append(nodes, cur)
+			if !role2 { // the cross-operator oracles are about the role under test
+				nodes = append(nodes, cur)
+			}
 			for _, b := range parseIDs(kvOf(ws, "bad")) {
 				c.bad = append(c.bad, k.valBytes(uint64(b)))
 			}
